@@ -1728,12 +1728,12 @@ Proof.
   eexists. split.
   { eapply conv_dst_fwd; eauto. }
   (* barectf 3 reading of the node the converter built *)
-  destruct (dst_node_lookups d (first_some ehc (first_some tsb tse))
+  rewrite Hdef.
+  destruct (dst_node_lookups d (option_map YStr ck)
               (pkt_node (YMap mt) (YMap mc) fbeg fend fdisc) (er_node fid fts) ex ec evs')
     as (L1 & L2 & L3 & L4 & L5 & L6 & L7).
   cbn [v3_stream]. rewrite L7. cbn [negb].
-  rewrite Hdef in L2.
-  assert (Hdc : rd_s "$default-clock-type-name" (dst_node d (first_some ehc (first_some tsb tse))
+  assert (Hdc : rd_s "$default-clock-type-name" (dst_node d (option_map YStr ck)
               (pkt_node (YMap mt) (YMap mc) fbeg fend fdisc) (er_node fid fts) ex ec evs') = Some ck).
   { unfold rd_s, opt_of. rewrite L2. destruct ck; reflexivity. }
   rewrite Hdc. cbn [obind]. unfold sub. rewrite L3. cbn [lookup String.eqb Ascii.eqb Bool.eqb fst snd obind].
@@ -1780,7 +1780,7 @@ Proof.
   rewrite (Fplain disc fdisc (Wk _ _ _ _ Rd3) V2). cbn [obind].
   (* extra members *)
   assert (Hex : match opt_of "packet-context-field-type-extra-members"
-                        (dst_node d (first_some ehc (first_some tsb tse))
+                        (dst_node d (option_map YStr ck)
                            [("total-size-field-type", YMap mt); ("content-size-field-type", YMap mc);
                             ("beginning-timestamp-field-type", feature_val fbeg); ("end-timestamp-field-type", feature_val fend);
                             ("discarded-event-records-counter-snapshot-field-type", feature_val fdisc)]
@@ -1799,7 +1799,7 @@ Proof.
   rewrite (Fts ts fts (Wk _ _ _ _ Rts3) V7). cbn [obind].
   (* common context *)
   assert (Hcx3 : rd_ft (v3_ft fuel) "event-record-common-context-field-type"
-                   (dst_node d (first_some ehc (first_some tsb tse))
+                   (dst_node d (option_map YStr ck)
                       [("total-size-field-type", YMap mt); ("content-size-field-type", YMap mc);
                        ("beginning-timestamp-field-type", feature_val fbeg); ("end-timestamp-field-type", feature_val fend);
                        ("discarded-event-records-counter-snapshot-field-type", feature_val fdisc)]
